@@ -475,12 +475,20 @@ where
             )));
         };
 
-        rrset.push_data(data);
-
         if let Some(existing_rrset) = tree_node.get_rrset(rtype).await? {
+            // RFC 5936 section 2.2: "AXFR clients MUST ignore any duplicate
+            // RRs received". XfrResponseInterpreter leaves this to us.
+            if existing_rrset.data().contains(&data) {
+                return Ok(());
+            }
+
+            rrset.push_data(data);
+
             for existing_data in existing_rrset.data() {
                 rrset.push_data(existing_data.clone());
             }
+        } else {
+            rrset.push_data(data);
         }
 
         // Replace the Rrset in the tree with the new bigger one.
